@@ -42,7 +42,7 @@ def run(rep, tier):
             rep.violation(key, "statistic '%s' of fresh %s encryptions outside its acceptance band: %s" % (kind, d["layout"], json.dumps(table[-1])), {"descriptor": d, "sums": sums})
     rep.extra["statistics"] = table
     rep.extra["dependency_experiments"] = len(deps)
-    rep.rule = ("%d dependency experiments (layouts glwe, glwe compressed, lwe, switching / automorphism / tensor / GGLWE-to-GGSW keys, ggsw, ggsw / gglwe compressed; 6 runs x 4 back-ends each: base, other plaintext, "
+    rep.rule = ("%d dependency experiments (layouts glwe, glwe compressed, lwe, switching / automorphism / tensor / GGLWE-to-GGSW keys, ggsw, ggsw / gglwe compressed, the circuit-bootstrapping key bundle; 6 runs x 4 back-ends each: base, other plaintext, "
                 "other secret, other mask seed, other error seed, base again) decided by Rand.tla DepOK on digests of the mask part and the body part; %d statistical experiments of >= 2^14 error "
                 "coefficients each (the same layouts, public-key encryption, and the blind-rotation / automorphism / tensor-switching sub-keys of a circuit-bootstrapping key bundle generated with three different precisions): TLC computes every error = phase - expected plaintext from raw limbs and the clear secret and accumulates count / sum / sum of squares / max and the histogram of "
                 "all mask digits; acceptance bands (8 standard deviations of the estimator, false alarm < 2^-40) are evaluated by TLC in integer arithmetic; distinct = experiments"
@@ -50,5 +50,5 @@ def run(rep, tier):
     rep.sample(table[0] if table else {})
     log("[C06] %d dependency experiments, %d statistical experiments" % (len(deps), len(stats)))
     rep.assumptions += ["sigma = 3.2, bound = 6 sigma, noise on the last limb (k a multiple of the radix) for the statistics; other positions through C01's bound",
-                        "blind-rotation and circuit-bootstrapping keys: statistics of the three sub-keys of the bundle routine (read back through the public serialisation), no dependency experiment; BDD keys not covered (a circuit-bootstrapping key plus a switching key)",
+                        "blind-rotation and circuit-bootstrapping keys: statistics of the three sub-keys of the bundle routine (read back through the public serialisation) and one dependency experiment over all their cells (the LWE secret plays the plaintext); BDD keys not covered (a circuit-bootstrapping key plus switching keys, whose intermediate secret is drawn from the ERROR stream)",
                         "N = 8 (many objects) rather than few large objects; seeds derived deterministically from the experiment index"]
